@@ -436,6 +436,7 @@ func (p *nriPlugin) CreateContainer(ctx context.Context, pod *api.PodSandbox, co
 
 	if err := m.policy.AllocateResources(c); err != nil {
 		c.UpdateState(cache.ContainerStateStale)
+		p.flushPendingOnError(event, c)
 		return nil, nil, fmt.Errorf("failed to allocate resources: %w", err)
 	}
 
@@ -456,6 +457,7 @@ func (p *nriPlugin) CreateContainer(ctx context.Context, pod *api.PodSandbox, co
 			nri.Warnf("%s: failed to run post-release hooks on error for %s: %v",
 				event, container.GetName(), relErr)
 		}
+		p.flushPendingOnError(event, c)
 		return nil, nil, fmt.Errorf("failed to allocate container resources: %w", err)
 	}
 
@@ -575,6 +577,7 @@ func (p *nriPlugin) UpdateContainer(ctx context.Context, pod *api.PodSandbox, co
 		nri.Warn("UpdateContainer with real resource changes: %s -> %s",
 			old.String(), upd.String())
 		if err := m.policy.UpdateResources(c); err != nil {
+			p.flushPendingOnError(event, nil)
 			return nil, fmt.Errorf("failed to update resources: %w", err)
 		}
 	}
@@ -699,6 +702,25 @@ func (p *nriPlugin) updateContainers() (retErr error) {
 	}
 
 	return nil
+}
+
+// flushPendingOnError delivers the changes a failing request has already made to
+// other containers. The reply of a failed request cannot carry updates, so they
+// are sent as an unsolicited update; a failed container's own changes are dropped.
+func (p *nriPlugin) flushPendingOnError(event string, failed cache.Container) {
+	// Notes: must be called with p.resmgr lock held.
+	if failed != nil {
+		failed.GetPendingAdjustment()
+		for _, ctrl := range failed.GetPending() {
+			failed.ClearPending(ctrl)
+		}
+	}
+	if len(p.resmgr.cache.GetPendingContainers()) == 0 {
+		return
+	}
+	if err := p.updateContainers(); err != nil {
+		nri.Warn("%s: failed to deliver pending changes after a failed request: %v", event, err)
+	}
 }
 
 func (p *nriPlugin) getPendingAdjustment(container *api.Container) *api.ContainerAdjustment {
